@@ -25,9 +25,9 @@ MAXCP = 0x10FFFF
 INF = None  # max repeat "unbounded"
 
 # placeholder letters (private-use code points) for template slots
-SLOT0 = ''
-SLOT1 = ''
-SLOT2 = ''
+SLOT0 = '\ue000'
+SLOT1 = '\ue001'
+SLOT2 = '\ue002'
 _SLOTS = {0xE000: 'X0', 0xE001: 'X1', 0xE002: 'X2'}
 
 
@@ -688,6 +688,10 @@ class Equiv:
                         seen.add(st)
                         q.append((st, word + (c,)))
         return True, None, states
+
+
+def unslot(s: str) -> str:
+    return s.replace(SLOT0, '<X0>').replace(SLOT1, '<X1>').replace(SLOT2, '<X2>')
 
 
 def word_show(w: tuple) -> str:
